@@ -39,9 +39,29 @@ def _decode_z3_string(s):
 
 
 def solve_one(task):
-    name, smt2, kind, input_names, budgets = task
+    name, smt2, kind, input_names, budgets, core = task
     t0 = time.time()
     log = []
+    # --- staged premise selection (dropping hypotheses is sound for `unsat`) ----------------------
+    stage_budget = [2, 3, 4, 5, 5, 5]
+    for k, txt in enumerate(core or []):
+        t1 = time.time()
+        try:
+            ctx = z3.Context()
+            for seed in ((0,) if k == 0 else (0, 11)):
+                s = z3.Solver(ctx=ctx)
+                s.set("timeout", int(stage_budget[min(k, len(stage_budget) - 1)] * 1000))
+                if seed:
+                    s.set("random_seed", seed)
+                s.from_string(txt)
+                r = s.check()
+                log.append((f"z3-stage{k}" + (f"-seed{seed}" if seed else ""), str(r), round(time.time() - t1, 3)))
+                if r == z3.unsat:
+                    return dict(name=name, verdict="unsat", backend="z3", seconds=time.time() - t0, log=log, model=None)
+                if r == z3.sat:
+                    break
+        except z3.Z3Exception as e:
+            log.append((f"z3-stage{k}", "error:" + str(e)[:100], round(time.time() - t1, 3)))
     # --- z3 python API -------------------------------------------------
     try:
         ctx = z3.Context()
@@ -124,7 +144,8 @@ def solve_all(vcs, tier="quick", jobs=None, scratch=None):
         budgets["tmpdir"] = scratch
     tasks = []
     for vc in vcs:
-        tasks.append((vc.name, vc.smt2(), vc.kind, [str(c) for c in vc.inputs.values()], budgets))
+        core = vc.levels()
+        tasks.append((vc.name, vc.smt2(), vc.kind, [str(c) for c in vc.inputs.values()], budgets, core))
     jobs = jobs or min(16, os.cpu_count() or 4)
     results = {}
     if len(tasks) <= 2:
